@@ -87,6 +87,9 @@ func (a *AuthIp) watchYml() error {
 					switch {
 					case ev.Op&fsnotify.Write == fsnotify.Write:
 						fallthrough
+					case ev.Op&fsnotify.Create == fsnotify.Create:
+						// the file was replaced by renaming a new one over it
+						fallthrough
 					case ev.Op&fsnotify.Rename == fsnotify.Rename:
 						if err := a.parseAuthIp(); err != nil {
 							logging.Errorf("parser auth ip err: %s", err)
@@ -118,9 +121,19 @@ func (a *AuthIp) parseAuthIp() error {
 		return nil
 	}
 
+	listed := make(map[string]struct{}, len(auth.IpList))
 	for _, ip := range auth.IpList {
+		listed[ip] = struct{}{}
 		if !IpMap.Insert(ip, struct{}{}) {
 			logging.Debugf("set ip %s", ip)
+		}
+	}
+	// addresses that are no longer in the file are no longer admitted
+	for kv := range IpMap.Iter() {
+		if ip, ok := kv.Key.(string); ok {
+			if _, keep := listed[ip]; !keep {
+				IpMap.Del(ip)
+			}
 		}
 	}
 	return nil
